@@ -2,6 +2,7 @@ package work
 
 import (
 	"bytes"
+	"encoding/binary"
 	"fmt"
 	"math/rand/v2"
 	"os"
@@ -11,9 +12,11 @@ import (
 	"strconv"
 	"strings"
 	"time"
+	"unsafe"
 
 	"github.com/philpearl/plenc"
 	"github.com/philpearl/plenc/plenccodec"
+	"github.com/philpearl/plenc/plenccore"
 
 	"verifharness/core"
 	"verifharness/gen"
@@ -84,6 +87,10 @@ func roundTripCase(c *core.Ctx, idx int, mode int) {
 	}
 	if idx%37 == 11 && mode == modeC01 && !sweep {
 		lateRegistration(c, idx)
+		return
+	}
+	if idx%43 == 21 && !sweep && mode == modeC01 {
+		taggedElements(c, idx)
 		return
 	}
 	if idx%41 == 13 && !sweep {
@@ -238,6 +245,129 @@ func roundTripCase(c *core.Ctx, idx int, mode int) {
 }
 
 // setStrings sets every string below v (map keys excepted) to s and returns how many it set
+// fix64Codec and lenU32Codec are codecs a caller registers under a tag name for built-in integer
+// types; their wire types (fixed 64 bit, length-delimited) are not the one of the default codec
+type fix64Codec struct{}
+
+func (fix64Codec) Omit(ptr unsafe.Pointer) bool { return *(*int64)(ptr) == 0 }
+func (fix64Codec) WireType() plenccore.WireType { return plenccore.WT64 }
+func (fix64Codec) Descriptor() plenccodec.Descriptor {
+	return plenccodec.Descriptor{Type: plenccodec.FieldTypeInt}
+}
+func (fix64Codec) New() unsafe.Pointer                     { return unsafe.Pointer(new(int64)) }
+func (fix64Codec) Size(ptr unsafe.Pointer, tag []byte) int { return len(tag) + 8 }
+func (fix64Codec) Append(data []byte, ptr unsafe.Pointer, tag []byte) []byte {
+	return binary.LittleEndian.AppendUint64(append(data, tag...), uint64(*(*int64)(ptr)))
+}
+func (fix64Codec) Read(data []byte, ptr unsafe.Pointer, wt plenccore.WireType) (int, error) {
+	if len(data) < 8 {
+		return 0, fmt.Errorf("fix64: %d bytes", len(data))
+	}
+	*(*int64)(ptr) = int64(binary.LittleEndian.Uint64(data))
+	return 8, nil
+}
+
+type lenU32Codec struct{}
+
+func (lenU32Codec) Omit(ptr unsafe.Pointer) bool { return *(*uint32)(ptr) == 0 }
+func (lenU32Codec) WireType() plenccore.WireType { return plenccore.WTLength }
+func (lenU32Codec) Descriptor() plenccodec.Descriptor {
+	return plenccodec.Descriptor{Type: plenccodec.FieldTypeString}
+}
+func (lenU32Codec) New() unsafe.Pointer { return unsafe.Pointer(new(uint32)) }
+func (lenU32Codec) text(ptr unsafe.Pointer) string {
+	return strconv.FormatUint(uint64(*(*uint32)(ptr)), 10)
+}
+func (c lenU32Codec) Size(ptr unsafe.Pointer, tag []byte) int {
+	l := len(c.text(ptr))
+	if len(tag) != 0 {
+		l += len(tag) + plenccore.SizeVarUint(uint64(l))
+	}
+	return l
+}
+func (c lenU32Codec) Append(data []byte, ptr unsafe.Pointer, tag []byte) []byte {
+	t := c.text(ptr)
+	if len(tag) != 0 {
+		data = plenccore.AppendVarUint(append(data, tag...), uint64(len(t)))
+	}
+	return append(data, t...)
+}
+func (lenU32Codec) Read(data []byte, ptr unsafe.Pointer, wt plenccore.WireType) (int, error) {
+	v, err := strconv.ParseUint(string(data), 10, 32)
+	if err != nil {
+		return 0, err
+	}
+	*(*uint32)(ptr) = uint32(v)
+	return len(data), nil
+}
+
+// taggedElements: codecs registered under a tag name for int64 and uint32, of another wire type
+// than the default ones, and struct types that carry the tag on plain fields, on pointers and on
+// SLICES of those types (where the documentation promises nothing about the tag, but the type
+// is accepted): whatever the bytes are, the values come back (round 12: k01)
+func taggedElements(c *core.Ctx, idx int) {
+	rec := c.Rec
+	r := c.Rand(idx)
+	cfg := instCfgs()[idx%4]
+	p := instNew(cfg)
+	T := reflect.TypeOf
+	p.RegisterCodecWithTag(T(int64(0)), "fixed", fix64Codec{})
+	p.RegisterCodecWithTag(T(uint32(0)), "text", lenU32Codec{})
+	i64, u32 := T(int64(0)), T(uint32(0))
+	for round := 0; round < 4; round++ {
+		var fs []reflect.StructField
+		add := func(t reflect.Type, opt string) {
+			tag := fmt.Sprintf(`plenc:"%d"`, len(fs)+1)
+			if opt != "" {
+				tag = fmt.Sprintf(`plenc:"%d,%s"`, len(fs)+1, opt)
+			}
+			fs = append(fs, reflect.StructField{Name: fmt.Sprintf("F%d", len(fs)), Type: t, Tag: reflect.StructTag(tag)})
+		}
+		for _, pair := range []struct {
+			t   reflect.Type
+			opt string
+		}{{i64, "fixed"}, {u32, "text"}} {
+			shapes := []reflect.Type{pair.t, reflect.PointerTo(pair.t), reflect.SliceOf(pair.t), reflect.SliceOf(reflect.PointerTo(pair.t)), reflect.SliceOf(reflect.SliceOf(pair.t))}
+			r.Shuffle(len(shapes), func(i, j int) { shapes[i], shapes[j] = shapes[j], shapes[i] })
+			for _, sh := range shapes[:2+r.IntN(4)] {
+				add(sh, pair.opt)
+				if r.IntN(2) == 0 {
+					add(sh, "")
+				}
+			}
+		}
+		st := reflect.StructOf(fs)
+		if _, err := p.CodecForType(st); err != nil {
+			rec.Count("tagged_element_types_turned_away", 1)
+			continue
+		}
+		for j := 0; j < 3; j++ {
+			v := reflect.New(st)
+			fillPresent(v.Elem(), r)
+			data, err, pn := marshal(p, nil, v.Interface())
+			rec.Eval(1)
+			desc := func() string {
+				return fmt.Sprintf("[%s] codecs registered under tag names for int64 (fixed 64 bit) and uint32 (decimal text)\n  type %s\n  value %s\n  bytes %s", cfgName(cfg), typeString(st), model.Show(v.Elem()), hexHead(data))
+			}
+			if err != nil || pn != "" {
+				rec.Violation("marshal-error", fmt.Sprintf("%v %s %s", err, trunc1(pn), desc()), nil)
+				return
+			}
+			out := reflect.New(st)
+			if err, pn := unmarshal(p, data, out.Interface()); err != nil || pn != "" {
+				rec.Violation("unmarshal-error", fmt.Sprintf("%v %s %s", err, trunc1(pn), desc()), nil)
+				return
+			}
+			if !reflect.DeepEqual(v.Elem().Interface(), out.Elem().Interface()) {
+				rec.Violation("round-trip", fmt.Sprintf("Unmarshal(Marshal(v)) differs from v: got %s %s", model.Show(out.Elem()), desc()), nil)
+				return
+			}
+			rec.Count("tagged_element_round_trips", 1)
+		}
+	}
+	rec.NonTrivial(core.Hash64("tagged-elements", fmt.Sprint(idx)))
+}
+
 const indexWindowWidth = 24
 
 // indexWindow builds a struct with a field at every index of the w-th window of indexWindowWidth
